@@ -3,6 +3,7 @@ import RpmVerif.Driver.Hash
 import RpmVerif.Model.Builder
 import RpmVerif.Model.Path
 import RpmVerif.Model.WithFile
+import RpmVerif.Model.PrepareData
 import RpmVerif.Spec.FileOptions
 import RpmVerif.Gen.CompressionNames
 /-! Shared driver front-end for the builder properties (C06, C08, C09, C11): decodes the compact
@@ -59,6 +60,12 @@ structure Req where
   now : Nat
   /-- the error class when the MODEL's sequence of `with_file` calls fails (then `cfg.files` is empty) -/
   buildErr : Option String := none
+  /-- `PackageBuilder::new(..)` of the request and the calls made on it, in the harness' order (input of `Build.run`) -/
+  st0 : RpmVerif.Build.St := ⟨cfg, [], []⟩
+  calls : List RpmVerif.Build.Call := []
+  /-- `sgn=bs|b+s`: the package is signed after the build (`build_and_sign` / `build` + `sign`): lead, main header and payload
+  are those of the unsigned build, the signature header is not predicted -/
+  signed : Bool := false
 
 def kv (toks : List String) (k : String) : Option String :=
   toks.findSome? fun t => if t.startsWith (k ++ "=") then some (t.drop (k.length + 1)).toString else none
@@ -158,57 +165,134 @@ def compOfTypeName (name : String) : Comp :=
   | some p => compOfVariant p
   | none => .none
 
-def parseReq (toks : List String) : Option Req := do
+/-- `c=<…>` as the `CompressionWithLevel` handed to `compression(..)` -/
+def parseComp (c : String) : Comp :=
+  match c.splitOn ":" with
+  | [ty, "d"] => compOfTypeName ty                -- `compression(CompressionType::<ty>)`
+  | ["none"] => .none | ["none", _] => .none
+  | ["gzip", l] => .gzip (l.toNat?.getD 0) | ["zstd", l] => .zstd (l.toInt?.getD 0)
+  | ["xz", l] => .xz (l.toNat?.getD 0) | ["bzip2", l] => .bzip2 (l.toNat?.getD 0)
+  | _ => .none
+
+/-- key and value of a `k=v` token -/
+def splitTok (t : String) : String × String :=
+  match t.splitOn "=" with
+  | k :: rest => (k, "=".intercalate rest)
+  | [] => ("", "")
+
+/-- a typed instant `<kind>:<secs>:<nanos>` (kind `u32 | sys | utc | fix`) as the argument of a timestamp setter -/
+def parseTsArg (kind secs nanos : String) : Option RpmVerif.AddData.TsArg :=
+  match secs.toInt?, nanos.toNat? with
+  | some s, some n =>
+    if h : n < 1000000000 then
+      match kind with
+      | "u32" => if 0 ≤ s && s < 4294967296 && n == 0 then some (.secs s.toNat) else none
+      | "sys" => some (.src (.sys ⟨s, n, h⟩))
+      | "utc" => some (.src (.chrono ⟨⟨s, n, h⟩, 0⟩))
+      | "fix" => some (.src (.chrono ⟨⟨s, n, h⟩, 20700⟩))
+      | _ => none
+    else none
+  | _, _ => none
+
+def scriptKinds : List String := ["prein", "postin", "preun", "postun", "pretrans", "posttrans", "preuntrans", "postuntrans", "verify"]
+def depKindsWire : List String := ["prov", "req", "conf", "obs", "rec", "sug", "enh", "sup"]
+
+/-- the calls `harness/src/bld.rs builder_from` makes on the `PackageBuilder`, in ITS order: every occurrence of a metadata /
+compression token in token order, `source_date` (unless `sdlast`), then the `f=` / `dp=` / `sc=` / `cl=` / `clt=` tokens in
+token order, `source_date` last with `sdlast`. The model of each call is `Model/Builder.lean` (`MetaSetter.apply`) /
+`Model/WithFile.lean` / `Model/AddData.lean` (timestamps) — composed by `Build.run` (`Model/PrepareData.lean`). -/
+def callsOf (toks : List String) (fileReqs : List FileReq) : List RpmVerif.Build.Call :=
+  open RpmVerif.Build in
   let g := kv toks
-  let opt (k : String) : Option Bytes := (g k).map hb
-  let fileReqs : List FileReq := toks.filterMap fun t => if t.startsWith "f=" then parseFile t else none
-  -- the builder state: the MODEL of the `with_file` calls (`Model/WithFile.lean`), in request order
-  let state := RpmVerif.WithFile.buildState sha256hex (fun _ => true) (fileReqs.map (·.call)) RpmVerif.WithFile.BState.empty
-  let (files, dirs, buildErr) : List FileE × List Bytes × Option String := match state with
-    | .ok st => (st.files, st.directories, none)
-    | .err e => ([], [], some e)
-    | .panic p => ([], [], some ("panic:" ++ p))
-  let deps (kind : String) : List Dep := toks.filterMap fun t =>
-    if t.startsWith "dp=" then
-      match (t.drop 3).toString.splitOn ":" with
-      | [k, n, f, v] => if k == kind then some ⟨hb n, f.toNat?.getD 0, hb v⟩ else none
-      | _ => none
-    else none
-  let script (kind : String) : Option RpmVerif.Bld.Scriptlet :=
-    (toks.filterMap fun t =>
-      if t.startsWith "sc=" then
+  let simple : List Call := toks.filterMap fun t =>
+    let (k, v) := splitTok t
+    match k with
+    | "e" => v.toNat?.map fun n => .set (.epoch n)
+    | "r" => some (.set (.release (hb v))) | "d" => some (.set (.description (hb v))) | "ve" => some (.set (.vendor (hb v)))
+    | "pk" => some (.set (.packager (hb v))) | "g" => some (.set (.group (hb v))) | "u" => some (.set (.url (hb v)))
+    | "vc" => some (.set (.vcs (hb v))) | "ck" => some (.set (.cookie (hb v))) | "bh" => some (.set (.buildHost (hb v)))
+    | "c" => some (.set (.compression (parseComp v)))
+    | _ => none
+  -- `sd=<u32>` with `sdk=` choosing the argument type for the same instant; `sdneg=<s>`: s seconds before 1970 as a DateTime;
+  -- `sdt=<kind>:<secs>:<nanos>`: any instant as that type
+  let sd : List Call :=
+    (match (g "sd").bind (·.toNat?) with
+     | some n =>
+       let k := (g "sdk").getD "u32"
+       if k == "st" then [.sourceDate (.src (.sys ⟨n, 0, by decide⟩))]
+       else if k.startsWith "dt" then [.sourceDate (.src (.chrono ⟨⟨n, 0, by decide⟩, 0⟩))]
+       else [.sourceDate (.secs n)]
+     | none => []) ++
+    (match (g "sdneg").bind (·.toNat?) with
+     | some n => [.sourceDate (.src (.chrono ⟨⟨-(n : Int), 0, by decide⟩, 0⟩))]
+     | none => []) ++
+    (match (g "sdt").map (·.splitOn ":") with
+     | some [k, s, n] => (parseTsArg k s n).toList.map .sourceDate
+     | _ => [])
+  let fileCalls := fileReqs.map (·.call)
+  let rec seq (ts : List String) (fs : List RpmVerif.WithFile.Call) : List Call :=
+    match ts with
+    | [] => []
+    | t :: rest =>
+      if t.startsWith "f=" then
+        match fs with
+        | c :: fs' => .file c :: seq rest fs'
+        | [] => seq rest []
+      else if t.startsWith "dp=" then
+        match (t.drop 3).toString.splitOn ":" with
+        | [k, n, f, v] => .set (.dep (depKindsWire.idxOf k) ⟨hb n, f.toNat?.getD 0, hb v⟩) :: seq rest fs
+        | _ => seq rest fs
+      else if t.startsWith "dpc=" then
+        -- a dependency made by the public constructor named (table `Gen.depCtors`, scraped from types.rs)
+        match (t.drop 4).toString.splitOn ":" with
+        | [k, ctor, n, v] =>
+          (match RpmVerif.Bld.depCtor (RpmVerif.Gen.depCtorNames.idxOf ctor) (hb n) (hb v) with
+           | some d => [Call.set (.dep (depKindsWire.idxOf k) d)]
+           | none => []) ++ seq rest fs
+        | _ => seq rest fs
+      else if t.startsWith "sc=" then
         let p := (t.drop 3).toString.splitOn ":"
-        if p.head? == some kind then parseScript p else none
-      else none).getLast?
-  let changelog := toks.filterMap fun t =>
-    if t.startsWith "cl=" then
-      match (t.drop 3).toString.splitOn ":" with
-      | [n, x, tm] => some (hb n, hb x, tm.toNat?.getD 0)
-      | _ => none
-    else none
+        match parseScript p with
+        | some s => .set (.script (scriptKinds.idxOf (p.headD "")) s) :: seq rest fs
+        | none => seq rest fs
+      else if t.startsWith "scs=" then
+        -- `impl From<&str / String> for Scriptlet`: the text alone
+        match (t.drop 4).toString.splitOn ":" with
+        | [k, s] => .set (.script (scriptKinds.idxOf k) (RpmVerif.Bld.Scriptlet.new (hb s))) :: seq rest fs
+        | _ => seq rest fs
+      else if t.startsWith "cl=" then
+        match (t.drop 3).toString.splitOn ":" with
+        | [n, x, tm] => .set (.changelog (hb n) (hb x) (tm.toNat?.getD 0)) :: seq rest fs
+        | _ => seq rest fs
+      else if t.startsWith "clt=" then
+        match (t.drop 4).toString.splitOn ":" with
+        | [n, x, k, s, ns] => (match parseTsArg k s ns with | some a => [Call.changelog (hb n) (hb x) a] | none => []) ++ seq rest fs
+        | _ => seq rest fs
+      else seq rest fs
+  let sdLast := toks.contains "sdlast"
+  simple ++ (if sdLast then [] else sd) ++ seq toks fileCalls ++ (if sdLast then sd else [])
+
+def parseReqWith (valid : Bytes → Bool) (toks : List String) : Option Req := do
+  let g := kv toks
+  -- (a malformed `f=` token makes the request unreadable rather than silently dropping a file)
+  let fileReqs : List FileReq := toks.filterMap fun t => if t.startsWith "f=" then parseFile t else none
   let nobz := g "feat" == some "nobz"
-  let comp : Comp := match g "c" with
-    | none => defaultComp nobz                        -- no `compression(..)` call: `CompressionWithLevel::default()`
-    | some c => match c.splitOn ":" with
-      | [ty, "d"] => compOfTypeName ty                -- `compression(CompressionType::<ty>)`
-      | ["none"] => .none | ["none", _] => .none
-      | ["gzip", l] => .gzip (l.toNat?.getD 0) | ["zstd", l] => .zstd (l.toInt?.getD 0)
-      | ["xz", l] => .xz (l.toNat?.getD 0) | ["bzip2", l] => .bzip2 (l.toNat?.getD 0)
-      | _ => .none
-  let cfg : Cfg := {
-    name := hb ((g "n").getD "-"), epoch := ((g "e").bind (·.toNat?)).getD 0, version := hb ((g "v").getD "-"),
-    release := (opt "r").getD [49], license := hb ((g "l").getD "-"), arch := hb ((g "a").getD "-"),
-    summary := hb ((g "s").getD "-"), desc := opt "d", vendor := opt "ve", packager := opt "pk", group := opt "g",
-    url := opt "u", vcs := opt "vc", cookie := opt "ck", buildHost := opt "bh",
-    sourceDate := (g "sd").bind (·.toNat?), files := files, directories := dirs,
-    provides := deps "prov", requires := deps "req", conflicts := deps "conf", obsoletes := deps "obs",
-    recommends := deps "rec", suggests := deps "sug", enhances := deps "enh", supplements := deps "sup",
-    preIn := script "prein", postIn := script "postin", preUn := script "preun", postUn := script "postun",
-    preTrans := script "pretrans", postTrans := script "posttrans", preUntrans := script "preuntrans",
-    postUntrans := script "postuntrans", verify := script "verify", changelog := changelog, compression := comp,
-    largeFileThreshold := ((g "lf").bind (·.toNat?)).getD 4294967295 }
+  -- the builder state: `PackageBuilder::new` (defaults of the table scraped from builder.rs; no `compression(..)` call =
+  -- `CompressionWithLevel::default()`), then the MODEL of every call in the harness' order (`Build.run`)
+  let st0 : RpmVerif.Build.St :=
+    let s := RpmVerif.Build.St.new (hb ((g "n").getD "-")) (hb ((g "v").getD "-")) (hb ((g "l").getD "-")) (hb ((g "a").getD "-"))
+      (hb ((g "s").getD "-")) (defaultComp nobz)
+    { s with base := { s.base with largeFileThreshold := ((g "lf").bind (·.toNat?)).getD 4294967295 } }
+  let calls := callsOf toks fileReqs
+  let (cfg, buildErr) : Cfg × Option String := match RpmVerif.Build.run sha256hex valid calls st0 with
+    | .ok st => (st.cfg, none)
+    | .err e => (st0.cfg, some e)
+    | .panic p => (st0.cfg, some ("panic:" ++ p))
   let now ← (g "now").bind (·.toNat?)
-  pure ⟨cfg, fileReqs, now, buildErr⟩
+  pure ⟨cfg, fileReqs, now, buildErr, st0, calls, (g "sgn").isSome⟩
+
+/-- (the configurations of C06 / C08 / C09 / C11 carry valid capability texts only) -/
+def parseReq (toks : List String) : Option Req := parseReqWith (fun _ => true) toks
 
 /-- the verify scriptlet through the raw getters, as harness `verify_script_dump` -/
 def verifyDump (h : Header) : String :=
@@ -227,7 +311,7 @@ def modelBuildObs (r : Req) (paysha archsha : String) : String × Package :=
   let lead := leadNew r.cfg.name
   let md : Metadata := ⟨lead, sig, hdr⟩
   let same := match parseMetadata (writeMetadata md) with | .ok (m2, _) => m2 == md | _ => false
-  let obs := s!"ok paysha={paysha} archsha={archsha} lead={hex16 (fnv (writeLead lead))} sig={hex16 (fnv (writeSignature sig))} hdr={hex16 (fnv hbytes)} hlen={hbytes.length} same={boolStr same} || {C05.dump md} {verifyDump hdr}"
+  let obs := s!"ok paysha={paysha} archsha={archsha} lead={hex16 (fnv (writeLead lead))} sig={if r.signed then "signed" else hex16 (fnv (writeSignature sig))} hdr={hex16 (fnv hbytes)} hlen={hbytes.length} same={boolStr same} || {C05.dump md} {verifyDump hdr}"
   (obs, ⟨md, []⟩)
 
 end RpmVerif.Driver.Bld
